@@ -503,6 +503,65 @@ def route_burst(d, topo, knows_net=True):
     d.reach()
 
 
+@meta(bounds="the instance's loop-free topology with cold caches; a station on the first and a station on the last network (symbolic "
+             "stations) send a unicast to each other IN THE SAME INSTANT, so that the two path discoveries cross on the way; "
+             "each arrives exactly once at the addressed station and nowhere else",
+      outside="more than two simultaneous discoveries",
+      stubs=STUBS)
+def route_cross(d, topo):
+    T = TOPO[topo]
+    w = World()
+    lans, stations, routers = build(T, True)
+    n1, n2 = T["nets"][0], T["nets"][-1]
+    a = (n1, d.pick([1, 2], 'station_a'))
+    b = (n2, d.pick([1, 2], 'station_b'))
+    tag = bytes(d.bytes(1, 1, 'payload'))
+    stations[a].send(RemoteStation(b[0], b[1]), b"\xA1" + tag)
+    stations[b].send(RemoteStation(a[0], a[1]), b"\xB2" + tag)
+    w.run()
+    for k in sorted(stations):
+        got = sorted(bytes(x.pduData) for x in stations[k].got)
+        want = [b"\xB2" + tag] if k == a else [b"\xA1" + tag] if k == b else []
+        if got != want:
+            raise Violation("crossing-delivery", station=k, got=len(got), want=len(want), a=a, b=b, topo=topo)
+    d.reach()
+
+
+@meta(bounds="the instance's loop-free topology, stations bound WITHOUT a network number, cold caches; a symbolic station sends a "
+             "unicast to a symbolic remote station (it caches the path it discovers); then the routers announce the network "
+             "numbers (Network-Number-Is) and every station learns its own; then the same station sends to the same remote "
+             "network again, and the addressee answers to the source it is shown: each packet arrives exactly once",
+      outside="stations that learn their number before they ever send (route_scn learns-net)",
+      stubs=STUBS)
+def learn_then_send(d, topo):
+    T = TOPO[topo]
+    w = World()
+    lans, stations, routers = build(T, False)
+    keys = sorted(stations)
+    src = d.pick(keys, 'source')
+    dst = d.pick([k for k in keys if k[0] != src[0]], 'destination')
+
+    def one(tag, sender, dest, want_at):
+        for x in stations.values():
+            x.got = []
+        stations[sender].send(dest, tag)
+        w.run()
+        for k in keys:
+            n = len([x for x in stations[k].got if bytes(x.pduData) == tag])
+            if n != (1 if k == want_at else 0):
+                raise Violation("learn-then-send-delivery", phase=tag.hex(), station=k, got=n, want=1 if k == want_at else 0,
+                                source=src, destination=dst, topo=topo)
+        return stations[want_at].got[0].pduSource
+
+    one(b"\x01\x01", src, RemoteStation(dst[0], dst[1]), dst)
+    for r in routers:
+        r.nse.network_number_is()
+    w.run()
+    shown = one(b"\x02\x02", src, RemoteStation(dst[0], dst[1]), dst)
+    one(b"\x03\x03", dst, shown, src)
+    d.reach()
+
+
 def instances(tier):
     q = tier == "quick"
     out = []
@@ -530,6 +589,10 @@ def instances(tier):
                         path_timeout=90, label="%s,cold,asks-net" % t))
     for t in (["line3"] if q else ["pair", "line3", "star3", "line4", "tree5"]):
         out.append(Inst(route_burst, dict(topo=t), budget=120 if q else 600, path_timeout=90, label=t))
+    for t in (["line3"] if q else ["pair", "line3", "line4", "tree5"]):
+        out.append(Inst(route_cross, dict(topo=t), budget=120 if q else 600, path_timeout=90, label=t))
+    for t in (["pair", "line3"] if q else ["pair", "line3", "star3", "line4", "tree5"]):
+        out.append(Inst(learn_then_send, dict(topo=t), budget=150 if q else 600, path_timeout=90, label=t))
     for c in CACHES:
         out.append(Inst(route_step, dict(cache=c), budget=300 if q else 900, path_timeout=60, label=c))
     out.append(Inst(route_cycle, dict(hmax=3 if q else 6, remote=False), budget=80 if q else 300))
